@@ -92,6 +92,11 @@ func (in *Interp) vsymCall(name string, args []Value, c *ssa.CallCommon) []Value
 	case "Near":
 		a, b, abs, rel := args[0].(*Term), args[1].(*Term), args[2].(*Term), args[3].(*Term)
 		return one(in.nearTerm(a, b, abs, rel))
+	case "Hunt":
+		in.huntNext = true
+		in.obligation(strArg(args[1]), "assert", args[0].(*Term))
+		in.huntNext = false
+		return nil
 	case "HuntNear":
 		// bug-hunting form: only a satisfiable answer (a counterexample that replays) matters;
 		// unsat/unknown are both "no counterexample found" and the proof is left to a sibling harness
